@@ -48,6 +48,9 @@ type Fragment struct {
 	MaxArgs int  // function arguments (used when Funcs is non-empty)
 	MinArgs int  // smallest argument count generated
 	ExpRef  bool // '&' Pipe as function argument
+	// AmpAnywhere: '&' as a prefix operator in any operand position (outside the
+	// strict grammar, gap G1; used by C05 only: such input must still not panic).
+	AmpAnywhere bool
 	// Weight of a token; nil means every token weighs 1.
 	Weight func(model.Tok) int
 }
@@ -218,6 +221,12 @@ func (g *Gen) gen(n gnt, w int) []string {
 			ns, nw := g.fx(model.NOT)
 			for _, u := range g.gen(gUnary, w-nw) {
 				out = append(out, ns+u)
+			}
+		}
+		if f.AmpAnywhere {
+			as, aw := g.fx(model.AMP)
+			for _, u := range g.gen(gUnary, w-aw) {
+				out = append(out, as+u)
 			}
 		}
 	case gPostfix:
